@@ -9,8 +9,19 @@
 #    one (k = number of consecutive attempts so far, capped) is checked on the state (state.nextDelay after every step)
 #    and by the spec (every attempt is started by a timer armed with index min(n, Cap); no second timer exists).
 #  * consecutive = since the state of the address was last created (Cancel / ResetAll / success start a new run).
-#  * mismatches that mean FEWER attempts than the spec allows (a timer that never fires, an attempt skipped, a state
-#    that differs without breaking the two statements) are not violations: they are reported as binding drift (exit 2).
+#  * what counts as a violation (observed on the real code, see _reconnect.VIOLATION_KINDS):
+#      begin-while-paused  the callback / the manager's dial was entered while IsPaused() is true
+#      early-timer         a timer armed with index k reached attemptReconnect earlier than nominal(k)*(1-jitter) - 2 ms
+#      backoff-state       state.nextDelay is not min(initial*multiplier^attempts, max)
+#      backoff-order       the n-th consecutive attempt was started by a timer armed with an index other than min(n, Cap)
+#      extra-attempt       a second timer of one address fired AND started an attempt of its own (two retries for one delay)
+#    A timer the spec does not have that fires and starts nothing, a superseded timer that starts the attempt instead of
+#    the current one (with the right index), an attempt skipped, a timer that never fires, a state that differs
+#    without breaking the two statements: the code differs from Reconnect.tla but the property is not violated ->
+#    reported as binding drift (exit 2), never as VIOLATION.
+#  * every replay mismatch must reproduce 3 times on fresh Reconnectors before it is reported (a real timer that fires
+#    a few microseconds before the harness stops it would otherwise look like a timer the spec does not have); a path on
+#    which a real timer fires earlier than the path wants is retried (legal behaviour, other path).
 import vf, _reconnect as R
 
 
@@ -18,39 +29,57 @@ def run(ctx):
     q = ctx.quick()
     # (addrs, Cap, MaxAttempts, AttBound, MaxGate, MaxInfl, WithStop)
     main = (["a"], 2, 3, 0, 2, 1, False) if q else (["a"], 3, 4, 0, 2, 2, False)
-    caught = R.sensitivity(ctx, (["a"], 2, 3, 0, 2, 2, False))
-    runs = [("main", main)]
-    runs.append(("stop", (["a"], 2, 3, 0, 1, 1, True)))
+    caught = R.sensitivity(ctx, (["a"], 2, 3, 0, 2, 2, False), separately=not q)
+    runs = [("main", main), ("stop", (["a"], 2, 3, 0, 1, 1, True))]
     if not q:
         runs.append(("unlimited", (["a"], 2, 0, 3, 2, 2, False)))
-    results = {}
-    drift = []
-    for name, consts in runs:
-        res = R.replay(ctx, name, consts, par=24 if q else 48)
-        results[name] = res
-        drift += R.report(ctx, res, "Reconnector")
-    if drift and not ctx.violations:
-        raise vf.Infra("binding drift: the real Reconnector differs from Reconnect.tla without breaking the statement: %s"
-                       % vf.canon(drift[0])[:1200])
-    div = sum(r["summary"]["diverged"] for r in results.values())
-    if div and not ctx.violations:
-        raise vf.Infra("%d paths could not be replayed (real timers fired earlier than the path in every retry)" % div)
+    rep = R.replay(ctx, runs, par=24 if q else 48)
+    results = rep["models"]
+    drift = R.report(ctx, rep, "Reconnector")
+    # the real Manager against a dead address, and random schedules over two addresses (code -> spec)
+    msum, mval, mmissing = R.manager(ctx, rounds=2 if q else 12, k=4 if q else 6)
+    tr = []
+    for name, maxatt in ((("max3", 3),) if q else (("unl", 0), ("max3", 3))):
+        tr.append(R.random_traces(ctx, name, 24 if q else 400, 36 if q else 60, maxatt, par=16 if q else 32))
+    tdrift = [v["drift"] for v in [mval] + [t[1] for t in tr] if v.get("drift")]
+    if not ctx.violations:
+        if drift:
+            raise vf.Infra("binding drift: the real Reconnector differs from Reconnect.tla without breaking the statement: %s"
+                           % vf.canon(drift[0])[:1200])
+        if tdrift:
+            raise vf.Infra("binding drift: a recorded execution is rejected by an event that does not break the statement: %s"
+                           % vf.canon(tdrift[0])[:1200])
+        if mmissing:
+            raise vf.Infra("manager scenario could not be driven: %s" % mmissing[:2])
+        div = rep["summary"]["diverged"]
+        if div:
+            raise vf.Infra("%d paths could not be replayed (real timers fired earlier than the path in every retry)" % div)
     m = results["main"]
+    ntr = msum["rounds"] + sum(t[0]["traces"] for t in tr)
     ctx.evidence("model_checking",
                  assumptions=["real timers (20 ms initial delay, multiplier 2, jitter 0.2); a timer firing is awaited, never forced",
-                              "one address in the replayed model (timers of several addresses fire in an order the harness "
-                              "cannot choose; several addresses are covered by trace validation)",
+                              "replay: one address (timers of several addresses fire in an order the harness cannot choose); "
+                              "two addresses are covered by the recorded random schedules validated by TLC",
+                              "the random schedules issue an operation only clearly before a pending timer can fire or after "
+                              "it has arrived (the order of 'timer fired' and the operation is otherwise unknown)",
+                              "manager scenario: the dialer is a stub that fails when the harness says so (dead address); "
+                              "the manager's own Schedule inside connectWithTransport is logged as CbSchedule",
                               "bounds: " + "; ".join("%s: Cap=%d MaxAttempts=%d AttBound=%d MaxGate=%d MaxInfl=%d Stop=%s" % (
                                   (n,) + tuple(c[1:])) for n, c in runs)],
                  states=sum(r["ideal"].distinct for r in results.values()),
                  transitions=sum(r["edges"] for r in results.values()),
-                 traces_validated_against_impl=sum(len(r["paths"]) for r in results.values()),
+                 traces_validated_against_impl=sum(len(r["paths"]) for r in results.values()) + ntr,
                  exhaustive=True,
                  replayed_paths=sum(len(r["paths"]) for r in results.values()),
-                 replayed_steps=sum(r["summary"]["steps"] for r in results.values()),
-                 replay_mismatches=sum(r["summary"]["mismatches"] for r in results.values()),
-                 retried_for_timing=sum(r["summary"]["retried"] for r in results.values()),
-                 unconfirmed_mismatches=sum(r["summary"]["flaky"] for r in results.values()),
-                 observed_delays_ms=m["summary"]["delays"],
+                 replayed_steps=rep["summary"]["steps"],
+                 replay_mismatches=rep["summary"]["mismatches"],
+                 retried_for_timing=rep["summary"]["retried"],
+                 unconfirmed_mismatches=rep["summary"]["flaky"], unconfirmed_kinds=rep["summary"]["flaky_kinds"],
+                 observed_delays_ms=rep["summary"]["delays"],
+                 manager_rounds=msum["rounds"], manager_trace_events=msum["events"], manager_trace_accepted=mval["accepted"],
+                 manager_retry_gaps_ms=msum["gaps"][:12],
+                 random_traces=sum(t[0]["traces"] for t in tr), random_trace_events=sum(t[0]["events"] for t in tr),
+                 random_traces_accepted=[t[1]["accepted"] for t in tr],
                  deviations_caught=caught,
-                 samples=[{"replay_path": [s["a"] for s in m["paths"][len(m["paths"]) // 2]["steps"]][:14]}])
+                 samples=[{"replay_path": [s["a"] for s in m["paths"][len(m["paths"]) // 2]["steps"]][:14]},
+                          {"manager_trace_events": msum.get("samples")}, {"random_trace_events": tr[0][0].get("samples")}])
